@@ -290,7 +290,9 @@ def c16(tier, replay):
         for ex in ALL:
             if ex == "golomb" or (only and ex not in only.split(",")):
                 continue
-            for k in range(per_sweep):
+            # more instances for the examples whose repaired defects (D5 in lcs, D8, D9, D10) showed on 10^-3 .. 3 10^-4 of the instances only
+            boost = {"tsptw": 5, "sop": 6, "lcs": 3, "talentsched": 12}.get(ex, 1) if "VERIF_C16_SWEEP" not in os.environ else 1
+            for k in range(per_sweep * boost):
                 inst, txt, name = GEN[ex](r2, k % 2 == 0)
                 d = os.path.join(w, f"s{len(sjobs)}")
                 os.makedirs(d, exist_ok=True)
